@@ -24,7 +24,7 @@ PROOF_MODULES = ["PyTealV.Proofs.C02Spill", "PyTealV.Proofs.C02RecPoints", "PyTe
                  # whole-program code-generation theorem `genProg_correct` (Src.runProg vs the multi-routine graph machine)
                  "PyTealV.Proofs.C02GenMach", "PyTealV.Proofs.C02GenShape", "PyTealV.Proofs.C02GenPrim",
                  "PyTealV.Proofs.C02GenSem", "PyTealV.Proofs.C02GenSrc", "PyTealV.Proofs.C02GenCall",
-                 "PyTealV.Proofs.C02GenSpill", "PyTealV.Proofs.C02GenProg", "PyTealV.Proofs.C02Gen",
+                 "PyTealV.Proofs.C02GenSpill", "PyTealV.Proofs.C02GenProg", "PyTealV.Proofs.C02GenPres", "PyTealV.Proofs.C02Gen",
                  "PyTealV.Proofs.C02Compile"]
 TRUSTED = [
     "Lean 4 kernel; axioms propext, Classical.choice, Quot.sound only",
@@ -102,13 +102,16 @@ def run(tier: str) -> int:
                 # is this program inside the fragment of the universal theorem `genProg_correct`
                 # (scratch-slot convention; automatically numbered variables renamed into free slots)?
                 first = False
-                fr = d.ask(f"fragmentr-sexp {ver} 0 {case.sexp}")
-                kv = dict(x.split("=", 1) for x in fr.split(" ") if "=" in x)
-                cur_stage = kv.get("stage", "?")
-                if "stage" in kv:
-                    stats[f"genProg_correct:stage={kv['stage']}:in_fragment={kv.get('renamed')}"] += 1
-                else:
-                    stats["genProg_correct:" + fr[:40]] += 1
+                for fpflag in (0, 1):
+                    fr = d.ask(f"fragmentr-sexp {ver} {fpflag} {case.sexp}")
+                    kv = dict(x.split("=", 1) for x in fr.split(" ") if "=" in x)
+                    if fpflag == 0:
+                        cur_stage = kv.get("stage", "?")
+                    if "stage" in kv:
+                        stats[f"genProg_correct:fp={fpflag}:stage={kv['stage']}:in_fragment={kv.get('renamed')}"
+                              + (":dynPartial=true" if kv.get("dynPartial") == "true" and kv.get("renamed") != "true" else "")] += 1
+                    else:
+                        stats["genProg_correct:" + fr[:40]] += 1
             if not case.ok:
                 stats[f"rejected:{case.res[1]}"] += 1
                 if case.res[0] == "crash":
@@ -127,11 +130,10 @@ def run(tier: str) -> int:
                 stats["validateprog:" + verdict.split(" ")[0]] += 1
                 if verdict.startswith("valid") and "spilled=0" not in verdict:
                     stats["validateprog:valid with spill code"] += 1
-                if not fp:
-                    # do the hypotheses of the composed theorem `C02Compile.compile_correct_validated_prog`
-                    # (certificate accepted + certificate graphs = generator's + renamed program in the fragment) hold?
-                    comp = d.ask(f"composed-sexp {ver} 0 {case.teal.encode().hex()} {case.sexp}")
-                    stats[f"composed_theorem:{comp.split(' ')[0]}:stage={cur_stage}"] += 1
+                # do the hypotheses of the composed theorem `C02Compile.compile_correct_validated_prog`
+                # (certificate accepted + certificate graphs = generator's + renamed program in the fragment) hold?
+                comp = d.ask(f"composed-sexp {ver} {1 if fp else 0} {case.teal.encode().hex()} {case.sexp}")
+                stats[f"composed_theorem:fp={1 if fp else 0}:{comp.split(' ')[0]}:stage={cur_stage}"] += 1
                 if bad is None and not verdict.startswith("valid"):
                     bad2 = exec_diff(case, r, 150 if tier == "quick" else 1500, stats)
                     if bad2 is None:
